@@ -165,3 +165,13 @@ Proof.
     apply read_u16. split_andb Hwf. apply write_cells_ok; [exact Hs|].
     unfold len. rewrite Nat2Z.id, words_data by assumption. now apply all_u16_forall.
 Qed.
+
+(* ---- the same for request bodies (unassigned function codes included: exception 01, no change) ---- *)
+Theorem body_response_wf b w s : body_ok b w -> cells_ok s ->
+  spec_wf (spec_response_msg (snd (spec_exec s w))) = true /\ cells_ok (fst (spec_exec s w)).
+Proof.
+  destruct b as [m|fc rest]; cbn [body_ok].
+  - intros [Hw Hwf] Hs. split; [exact (response_wf m w s Hw Hwf Hs)|exact (exec_cells_ok m w s Hw Hwf Hs)].
+  - intros (-> & Hfc & _ & _) Hs. unfold spec_exec. cbn [spec_outcome fst snd wfc spec_response_msg].
+    split; [apply exc_wf; lia|exact Hs].
+Qed.
